@@ -450,3 +450,7 @@ O("C05.send_evrrul", "C05", "h_C16.c", "h_C05_send_evrrul",
   ["send_evrrul"], dfcc=True, replace=["send_ev", "send_rrul"],
   replace_status={"send_ev": "recording contract", "send_rrul": "recording contract (its lists: C05.send_rrul.sets)"},
   kind="bounded", bound="two sibling rules", unwind=20, solver=["minisat", "kissat"], timeout={"quick": 600, "thorough": 1800}, replay=False, replay_note="callees replaced by contracts")
+O("C05.make_obint", ["C05", "C11"], "h_C05i.c", "h_C05_make_obint",
+  "make_obint (string area of interned UIDs), two consecutive insertions of lengths 1..9 at fill levels 0..12: the handle encodes offset and length, the second string never overlaps the first or its terminator, the first keeps its bytes and its NUL",
+  ["make_obint"], kind="bounded", bound="string lengths 1..9, area of 64 bytes", solver=["minisat", "kissat"], timeout={"quick": 600, "thorough": 1800}, unwind=12,
+  native_srcs=["hash.c"])
